@@ -69,6 +69,9 @@ pub fn replay(a: &Args) -> Report {
         if got && !ok {
           rep.violation("C08", &format!("decoder:{which}"), if ok { "valid-rejected" } else { "malformed-accepted" },
             format!("independent parser says accept={ok}, decoder {which} says accept={got} (faults {faults})"), replay.clone());
+        } else if got && !matches!(dec(which, &reenc), (true, ref again, _) if *again == reenc) {
+          rep.violation("C08", &format!("decoder:{which}"), "reencoding-not-accepted",
+            format!("the decoder accepted the input but refuses (or changes) the encoding of the value it returned (faults {faults})"), replay.clone());
         } else if got && reenc != canon {
           rep.violation("C08", &format!("decoder:{which}"), "reencoding-differs",
             format!("re-encoding of the accepted value is not the canonical form of the input (faults {faults})"), replay.clone());
@@ -159,8 +162,15 @@ pub fn record(a: &Args) -> Report {
   let mut emit = |which: &str, b: &[u8], note: &str, rep: &mut Report, f: &mut dyn Write| {
     let (ok, reenc, panicked) = dec(which, b);
     rep.evaluations += 1;
-    writeln!(f, "{}", json!({"ev":"Decode","dec":which,"bytes":b,"ok": ok as u8,"reenc":reenc,"note":note,"panic":panicked as u8})).unwrap();
+    writeln!(f, "{}", json!({"ev":"Decode","dec":which,"bytes":b,"ok": ok as u8,"reenc":reenc,"note":note,"panic":panicked as u8,"must":0})).unwrap();
     rep.nontrivial(format!("{which}:{note}:{}:{}", b.len(), hex(&b[..b.len().min(48)])));
+    // what a decoder accepts is a VALUE: the encoding of that value decodes again, to the same
+    // value ("decoding its encoding yields an equal value" holds for decoded values too)
+    if ok && reenc != b {
+      let (ok2, reenc2, p2) = dec(which, &reenc);
+      rep.evaluations += 1;
+      writeln!(f, "{}", json!({"ev":"Decode","dec":which,"bytes":reenc,"ok": ok2 as u8,"reenc":reenc2,"note":"reenc-of-accepted","panic":p2 as u8,"must":1})).unwrap();
+    }
   };
   for (vi, (which, b)) in vals.iter().enumerate() {
     if !only.iter().any(|d| d == which) {
